@@ -444,7 +444,7 @@ pub struct LenientF64(pub f64);
 impl<'de> Deserialize<'de> for LenientF64 {
     fn deserialize<D: serde::Deserializer<'de>>(d: D) -> Result<Self, D::Error> {
         struct V;
-        impl serde::de::Visitor<'_> for V {
+        impl<'de> serde::de::Visitor<'de> for V {
             type Value = LenientF64;
             fn expecting(&self, f: &mut std::fmt::Formatter) -> std::fmt::Result {
                 f.write_str("a number or a numeric string")
@@ -461,8 +461,23 @@ impl<'de> Deserialize<'de> for LenientF64 {
             fn visit_u64<E: serde::de::Error>(self, v: u64) -> Result<LenientF64, E> {
                 Ok(LenientF64(v as f64))
             }
+            fn visit_i128<E: serde::de::Error>(self, v: i128) -> Result<LenientF64, E> {
+                Ok(LenientF64(v as f64))
+            }
+            fn visit_u128<E: serde::de::Error>(self, v: u128) -> Result<LenientF64, E> {
+                Ok(LenientF64(v as f64))
+            }
             fn visit_str<E: serde::de::Error>(self, v: &str) -> Result<LenientF64, E> {
                 v.trim().parse::<f64>().map(LenientF64).map_err(|_| E::custom("not a numeric string"))
+            }
+            fn visit_bytes<E: serde::de::Error>(self, v: &[u8]) -> Result<LenientF64, E> {
+                std::str::from_utf8(v).ok().and_then(|t| t.trim().parse::<f64>().ok()).map(LenientF64).ok_or_else(|| E::custom("not numeric bytes"))
+            }
+            fn visit_some<D2: serde::Deserializer<'de>>(self, d: D2) -> Result<LenientF64, D2::Error> {
+                LenientF64::deserialize(d)
+            }
+            fn visit_newtype_struct<D2: serde::Deserializer<'de>>(self, d: D2) -> Result<LenientF64, D2::Error> {
+                LenientF64::deserialize(d)
             }
         }
         d.deserialize_any(V)
@@ -497,6 +512,12 @@ impl<'de> serde::de::Visitor<'de> for RefLenientVisitor {
         Ok(RefLenient { hi: v as f64, lo: 0.0 })
     }
     fn visit_u64<E: serde::de::Error>(self, v: u64) -> Result<RefLenient, E> {
+        Ok(RefLenient { hi: v as f64, lo: 0.0 })
+    }
+    fn visit_i128<E: serde::de::Error>(self, v: i128) -> Result<RefLenient, E> {
+        Ok(RefLenient { hi: v as f64, lo: 0.0 })
+    }
+    fn visit_u128<E: serde::de::Error>(self, v: u128) -> Result<RefLenient, E> {
         Ok(RefLenient { hi: v as f64, lo: 0.0 })
     }
     fn visit_str<E: serde::de::Error>(self, v: &str) -> Result<RefLenient, E> {
